@@ -52,6 +52,11 @@ def features(beh):
     if has_bigbatch(beh):
         fs.add("bigbatch")
     for st in beh:
+        # size class "big batch": an import that writes the 300-column block (abstract column 8)
+        if st["op"] == "ImportValue" and any(p[0] == 8 for p in st["pairs"]):
+            fs.add("wide ImportValue" + (" maxopn" if st.get("maxopn") else ""))
+        if st["op"] == "Import" and any(p[1] == 8 for p in st["pairs"]):
+            fs.add("wide Import %s clear=%s" % (st["fld"], st["clear"]))
         op = st["op"]
         f = [op]
         for k in ("fld", "clear", "shard"):
